@@ -290,8 +290,10 @@ GRAPHS: List[Tuple[str, int, List[Tuple[int, int]]]] = [
 class Instance:
     """one evaluated call: the world, the solver, the logged auxiliary arrays and the posted constraints"""
 
-    def __init__(self, repo: Repo, prim: bool = False, div: bool = False):
-        self.w = GraphWorld(repo, use_graph_primitive=prim, use_graph_division_primitive=div)
+    def __init__(self, repo: Repo, prim: bool = False, div: bool = False, world: Optional[GraphWorld] = None):
+        # `world`: evaluate in the world of an earlier instance (same interpreter state: module-level variables keep what earlier
+        # calls left there), with a fresh Solver
+        self.w = world if world is not None else GraphWorld(repo, use_graph_primitive=prim, use_graph_division_primitive=div)
         self.s = self.w.solver()
         self.arrays: List[Dict[str, Any]] = []
         cw = self.w.cw
@@ -893,3 +895,95 @@ def cross_check(rep: Report, label: str, func: str, items: List[Tuple[str, Insta
                         f"which the definition {'rejects' if acc else 'admits'}")
             return
     rep.ok("ENC-X", f"{label}: projection equals the definition on {checked} small instances ({skipped} skipped for budget)", points=checked)
+
+
+# ------------------------------------------------------------------------------------------
+# ENC-H: nothing is carried from one call to the next
+# ------------------------------------------------------------------------------------------
+
+
+def tree_sig(t: Any) -> str:
+    """structural rendering of a posted constraint (operator names, variable ids, constants)"""
+    if isinstance(t, Obj):
+        op = t.attrs.get("op")
+        if isinstance(op, Tag):
+            nm = op.name.split(".")[-1]
+            if nm == "VAR":
+                return f"v{t.attrs.get('id')}"
+            return nm + "(" + ",".join(tree_sig(o) for o in t.attrs.get("operands", [])) + ")"
+        if "data" in t.attrs:
+            return "[" + ",".join(tree_sig(o) for o in t.attrs["data"]) + "]"
+        return t.attrs.get("__class__", "obj")
+    if isinstance(t, (list, tuple)):
+        return "[" + ",".join(tree_sig(o) for o in t) + "]"
+    return repr(t)
+
+
+def history_rule(repo: Repo, rep: Report, func: str, calls: List[Tuple[str, Callable[[Instance], Any]]], prim: bool = False, div: bool = False) -> None:
+    """ENC-H: every call in `calls` is evaluated twice - in a fresh interpreter state, and as one of a sequence of calls in ONE state
+    (module-level variables and attributes of module-level objects keep what earlier calls left there; each call gets its own Solver
+    and its own argument objects).  The constraints posted and the value returned must be the same both times: a cache keyed by too
+    little, a default argument that accumulates, a module-level list that grows, all show as a difference."""
+    rep.rule("ENC-H", "a graph constraint posts the same constraints and returns the same value whether it is the first call in an interpreter state "
+                      "or follows other calls with other arguments (nothing is carried from call to call)")
+    try:
+        fresh: List[Tuple[str, str]] = []
+        for desc, thunk in calls:
+            inst = Instance(repo, prim=prim, div=div)
+            ret = thunk(inst)
+            fresh.append((";".join(tree_sig(c) for c in inst.constraints()), tree_sig(ret)))
+        shared = None
+        # the sequence, then the sequence once more: the second round also meets what the first one left behind for the *same* arguments
+        for rnd in (1, 2):
+            for (desc, thunk), (want_c, want_r) in zip(calls, fresh):
+                inst = Instance(repo, prim=prim, div=div, world=shared)
+                shared = inst.w
+                ret = thunk(inst)
+                got_c, got_r = ";".join(tree_sig(c) for c in inst.constraints()), tree_sig(ret)
+                if got_c != want_c or got_r != want_r:
+                    k = next((i for i, (a_, b_) in enumerate(zip(got_c.split(";"), want_c.split(";"))) if a_ != b_), None)
+                    what = ("the returned value differs" if got_c == want_c else
+                            f"constraint #{k} is {got_c.split(';')[k][:160]} instead of {want_c.split(';')[k][:160]}" if k is not None else
+                            f"{len(got_c.split(';'))} constraints are posted instead of {len(want_c.split(';'))}")
+                    rep.finding("ENC-H", GRAPH, func, f"{func} call history",
+                                f"{func} [{desc}] evaluated after other calls in the same interpreter state (round {rnd}) differs from the same call "
+                                f"evaluated first: {what}")
+                    return
+        rep.ok("ENC-H", f"{func}: {len(calls)} calls, alone and as a sequence repeated twice in one interpreter state, post identical constraints", points=len(calls))
+    except Undecided as ex:
+        rep.undecide("ENC-H", f"{func}: {ex}")
+    except (Raised, IndexOutOfRange) as ex:
+        rep.finding("ENC-H", GRAPH, func, f"{func} call history", f"{func} raises {ex} when called repeatedly")
+
+
+def standard_history(repo: Repo, rep: Report, func: str, kind: str, extra_kw: Optional[Dict[str, Any]] = None, grid: bool = True,
+                     prim: bool = False) -> None:
+    """the usual sequence for one graph function.  kind: 'vertices' (flags per vertex, grid form = BoolArray2D), 'edges' (flags per edge,
+    grid form = BoolGridFrame), 'labels' (an int per vertex, grid form = IntArray2D)"""
+    kw = dict(extra_kw or {})
+    graphs = [("path of 3", 3, [(0, 1), (1, 2)]), ("triangle", 3, [(0, 1), (1, 2), (0, 2)]), ("star of 4", 4, [(0, 1), (0, 2), (0, 3)]),
+              ("path of 4", 4, [(0, 1), (1, 2), (2, 3)])]
+    calls: List[Tuple[str, Callable[[Instance], Any]]] = []
+    for gname, n, edges in graphs:
+        def on_graph(inst: Instance, n: int = n, edges: List[Tuple[int, int]] = edges) -> Any:
+            g = inst.w.graph(n, edges)
+            if kind == "vertices":
+                return inst.w.call(func, inst.s, inst.user_bools(n, "A"), g, **kw)
+            if kind == "edges":
+                return inst.w.call(func, inst.s, inst.user_bools(len(edges), "E"), g, **kw)
+            return inst.w.call(func, inst.s, inst.user_ints(n, 0, 1, "D"), 2, g, **kw)
+        calls.append((f"graph '{gname}'", on_graph))
+    for h, w in ((2, 3), (3, 2), (1, 3)) if grid else ():
+        def on_grid(inst: Instance, h: int = h, w: int = w) -> Any:
+            if kind == "vertices":
+                arr = inst.s.attrs["bool_array"]((h, w))
+                inst.arrays[-1]["user"] = "A"
+                return inst.w.call(func, inst.s, arr, **kw)
+            if kind == "edges":
+                fr = inst.w.cw.new("BoolGridFrame", inst.s, h, w)
+                return inst.w.call(func, inst.s, fr, **kw)
+            arr = inst.s.attrs["int_array"]((h, w), 0, 1)
+            inst.arrays[-1]["user"] = "D"
+            return inst.w.call(func, inst.s, arr, 2, **kw)
+        calls.append((f"{h}x{w} grid form", on_grid))
+    history_rule(repo, rep, func, calls, prim=prim)
